@@ -386,14 +386,6 @@ func Mod(a *Term, k *big.Int) *Term {
 	if a.op == OMod && new(big.Int).Mod(k, a.k).Sign() == 0 {
 		return a // already < a.k <= k
 	}
-	// drop the part of a linear form that is divisible by k (same split as Div)
-	_, rest, pulled := splitLin(linOf(a), k)
-	if pulled {
-		a = rest.build()
-		if a.op == OConst {
-			return Const(floorMod(a.k, k))
-		}
-	}
 	return TS.intern(OMod, SInt, new(big.Int).Set(k), "", a)
 }
 
